@@ -337,6 +337,9 @@ type env struct {
 	cancel   context.CancelFunc
 	last     []storeSpec // the stores currently in the cluster
 	lastDesc bool
+	// the replica checker lives as long as the cluster and was created before the replication
+	// configuration got its values (configuration changes online)
+	rc *checker.ReplicaChecker
 }
 
 func must(err error) {
@@ -349,6 +352,7 @@ func must(err error) {
 func newEnv(in *input) *env {
 	ctx, cancel := context.WithCancel(context.Background())
 	c := &ordCluster{mockcluster.NewCluster(ctx, config.NewTestOptions())}
+	rc := checker.NewReplicaChecker(c, cache.NewDefaultCache(16))
 	c.SetMaxReplicas(in.MaxReplicas)
 	c.SetLocationLabels(labelCfg[in.Labels])
 	c.SetIsolationLevel(isoCfg[in.Isolation])
@@ -380,7 +384,7 @@ func newEnv(in *input) *env {
 	for i := 0; i < 5000; i++ {
 		c.AllocID()
 	}
-	return &env{key: in.cfg(), cl: c, oc: schedule.NewOperatorController(ctx, c, nil), ctx: ctx, cancel: cancel}
+	return &env{key: in.cfg(), cl: c, oc: schedule.NewOperatorController(ctx, c, nil), ctx: ctx, cancel: cancel, rc: rc}
 }
 
 const gib = 1 << 30
@@ -714,7 +718,7 @@ func (w *world) repairCandidate(r *regionsim.Region) (cand uint64, why string) {
 func propose(e *env, src string, info *core.RegionInfo) []*operator.Operator {
 	switch src {
 	case "replica-checker":
-		return []*operator.Operator{checker.NewReplicaChecker(e.cl, cache.NewDefaultCache(16)).Check(info)}
+		return []*operator.Operator{e.rc.Check(info)}
 	case "rule-checker":
 		return []*operator.Operator{checker.NewRuleChecker(e.cl, e.cl.RuleManager, cache.NewDefaultCache(16)).Check(info)}
 	}
